@@ -6,3 +6,5 @@ package regexp2
 const verifOn = false
 
 func verifNoteTrackCap(int) {}
+
+func verifClockPoint(int) {}
